@@ -148,7 +148,7 @@ theorem strisuppercase_s_C10_partial (dest dmax : Nat) (st : St) (hall : AllRd s
 /-- memory `"1a"` at 100 -/
 def wDigitThenLetter : St := wMem fun a => if a = 100 then 49 else if a = 101 then 97 else 0
 
-theorem wDigitThenLetter_len : scanLen wDigitThenLetter.data 100 scanFuel2 = 2 := by
+private theorem wDigitThenLetter_len : scanLen wDigitThenLetter.data 100 scanFuel2 = 2 := by
   rw [scanLen_stable _ _ 3 scanFuel2 (by decide) (by decide)]; decide
 
 /-- `"1a"` with `dmax = 1`: the one character inside the extent is a digit, the answer is `false`
